@@ -128,20 +128,20 @@ CHECKS = {
         "level": "exploration",
         "rule": "guard-page monitor: every pointer argument in its own mapping with PROT_NONE pages on both sides, end-abutting and start-abutting; Block Encrypt/Decrypt for dst/src lengths 0..32 (and short-len/large-cap heap slices), Seal/Open/forged/short-ciphertext for every plaintext length 0..1100 (0..300 plus a seed-rotated fifth and all class lengths in quick), aad 0..300, nonce 1..300, tags 12..16, dst nil or exact-capacity guarded; assembly routines x1..x16, expandKeyAsm, gHashBlocks (1..40 blocks), sealAsm/openAsm called directly with exact-size buffers and round keys laid out as the cipher object (enc then dec, nothing after); a hardware fault = out-of-range access, an ordinary panic on too-short arguments = detected misuse; a class is (path, op, residues mod 16, tag, placement, dst kind)",
         "assumptions": ["a positive control (deliberate 1-byte over-read) must fault in every run", "faults are converted by debug.SetPanicOnFault; red zones are one page wide; non-adjacent accesses are covered by the second monitor: the single-step traces of all assembly routines are audited offline, every effective address (with its access size) must lie inside a buffer handed to the routine, its argument frame or read-only data of the binary (masked vector accesses are audited with the size of one element, the guard pages judge their true extent)", ARM64_NOTE],
-        "units": [gt("sm4", "./sm4/", "TestVerifC11"), {"name": "vtrace-audit", "engine": "engine_vtrace", "prop": "C11", "shards": 16}],
+        "units": [gt("sm4", "./sm4/", "TestVerifC11"), gt("sm2", "./sm2/", "TestVerifC11SM2"), gt("sm3", "./sm3/", "TestVerifC11SM3"), gt("utils", "./utils/", "TestVerifC11Utils"), {"name": "vtrace-audit", "engine": "engine_vtrace", "prop": "C11", "shards": 16}],
     },
     "C18": {
         "level": "exploration",
         "exhaustive": True,
         "rule": "exhaustive walk of live package state: all 4 SM2 comb schemes incl. remainder tables (every point = Montgomery form of the stated multiple of G, computed by the reference model, limbs canonical), curve constants; SM4 sbox (algebraic derivation), s0..s3 = L(sbox<<24/16/8/0), ck, fk; SM3 Tj<<<(j mod 32), IV; amd64 assembly constants observed through execution: GFNI affine macro on all 256 bytes (and every lane), FK<>/CK<> recovered from expandKeyAsm outputs by inverting T', GHASH multiplier (GCM_POLY, bit-reversal masks, lane shuffles) on all 128x128 basis pairs in the 1-way regime and in the 4-way regime (all 8 block positions in thorough, one rotating position in quick); a class is (table, entry index mod 64 | constant family); the SM2 tables are walked at start AND again after hostile use of every routine that reads them (they are live package state)",
         "assumptions": ["reference models validated at start of every run", "arm64 data blocks (asm_arm64.s, gcm_arm64.s) cannot be executed in this sandbox and are not claimed", "the static DATA blocks of the amd64 assembly (Shuffle, Shuffle1, Shuffle2, AND_MASK, LOWER_MASK, GCM_POLY, FK, CK, Counter_Add1..3) are additionally read from the running test binary's own memory at the addresses of its symbol table and compared with their derivations (reaches entries no realistic input length exercises); SHUFFLE_X_LANES / MERGE_H01 / MERGE_H23 are implementation-internal permutations without an external derivation and are judged only through execution (gHashBlocks, C06)"],
-        "units": [gt("internal", "./sm2/internal/", "TestVerifC18SM2"), gt("sm4", "./sm4/", "TestVerifC18SM4"), gt("sm3", "./sm3/", "TestVerifC18SM3"), {"name": "asmdata", "engine": "engine_asmdata"}],
+        "units": [gt("internal", "./sm2/internal/", "TestVerifC18SM2"), gt("sm4", "./sm4/", "TestVerifC18SM4"), gt("sm3", "./sm3/", "TestVerifC18SM3"), gt("internal-first-use", "./sm2/internal/", "TestVerifC18FirstUse"), {"name": "asmdata", "engine": "engine_asmdata"}],
     },
     "C17": {
         "level": "exploration",
         "rule": "stress under the Go race detector: 16..64 goroutines x mixed Encrypt/Decrypt/Seal/Open/forged-Open on ONE Block and ONE AEAD with key, nonce, aad, message and ciphertext buffers shared and write-protected (PROT_READ, so assembly writes fault), both paths, GOMAXPROCS 16/4/2, Gosched between ops; 16..48 goroutines x SignHashed/VerifyHashed/DerivePublic/GenerateKey/Sign+Verify/crafted invalid verifications ((r+s) mod n tiny, one-hot s)/sm3 sharing 4 key sets; truncated tags and non-standard nonce sizes rotate per round; ciphers are constructed concurrently for other keys; every concurrent result compared with the serially precomputed model result (objects are immutable, so this is the linearizability condition); round keys snapshot before/after; race reports deduplicated by repository frames; overlap measured with an atomic in-flight counter (no overlap = inconclusive); a class is (path, workers, GOMAXPROCS)",
         "assumptions": ["the race detector sees Go-side accesses only; assembly writes are observed through page protection of the shared inputs, not of the cipher object itself (compared by snapshot)", "porcupine is not used: there is no mutable shared object whose history needs a linearizability search", ARM64_NOTE],
-        "units": [gt("sm4-race", "./sm4/", "TestVerifC17SM4", race=True), gt("sm2-race", "./sm2/", "TestVerifC17SM2", race=True)],
+        "units": [gt("sm4-race", "./sm4/", "TestVerifC17SM4", race=True), gt("sm2-race", "./sm2/", "TestVerifC17SM2", race=True), gt("sm2-race-first-use", "./sm2/", "TestVerifC17FirstUse", race=True)],
     },
     "C08": {
         "level": "exploration",
